@@ -15,6 +15,6 @@ def run(chk):
     cfg = rc.set_consts("MC_C09", MaxLen=4 if quick else 6, MaxN=5 if quick else 7)
     res = vlib.run_tlc("MC_C09", cfg_text=cfg, timeout=1500, heap="12g")
     chk.add_tlc(res, "MC_C09")
-    rc.replay(chk, res.cases, layouts=("line", "inline", "inline2", "same", "mltag"), cli_sample=150 if quick else 1000)
+    rc.replay(chk, res.cases, layouts=("line", "inline", "inline2", "same", "mltag", "combo"), cli_sample=150 if quick else 1000)
     from props import rules_long
     rules_long.run(chk, "count", n=300 if quick else 3000)
